@@ -375,6 +375,18 @@ func mutate(args []string) int {
 	var fl []string
 	if *files != "" {
 		fl = strings.Split(*files, ",")
+	} else if prop == "all" {
+		// union of the anchor files of all properties; every variant is judged by all 20 checks at once
+		seen := map[string]bool{}
+		for i := 1; i <= 20; i++ {
+			for _, f := range anchoredFiles(*verif, fmt.Sprintf("C%02d", i)) {
+				if !seen[f] {
+					seen[f] = true
+					fl = append(fl, f)
+				}
+			}
+		}
+		sort.Strings(fl)
 	} else {
 		fl = anchoredFiles(*verif, prop)
 	}
@@ -439,12 +451,13 @@ func mutate(args []string) int {
 					r.Killed = true
 				}
 			}
+			sort.Strings(r.By)
 			results[i] = r
 		}(i)
 	}
 	wg.Wait()
 	compiled, killed := 0, 0
-	var survivors []mutResult
+	var survivors, killedList []mutResult
 	for _, r := range results {
 		if !r.Compiled {
 			continue
@@ -452,6 +465,7 @@ func mutate(args []string) int {
 		compiled++
 		if r.Killed {
 			killed++
+			killedList = append(killedList, r)
 		} else {
 			survivors = append(survivors, r)
 		}
@@ -463,7 +477,7 @@ func mutate(args []string) int {
 		return survivors[i].Line < survivors[j].Line
 	})
 	res := map[string]interface{}{
-		"property": prop, "variants": len(ms), "compiled": compiled, "killed": killed, "survivors": survivors,
+		"property": prop, "variants": len(ms), "compiled": compiled, "killed": killed, "survivors": survivors, "killed_list": killedList,
 		"files": fl, "wall_s": time.Since(start).Seconds(),
 		"note": "variants are syntactic edits of the anchor files checked through an overlay; survivors include edits that do not affect the property (logging, client-side code, equivalent edits)",
 	}
